@@ -226,6 +226,37 @@ theorem setModel_inv {w : World} (i c : Nat) (h : Inv w) : Inv (setModel w i c) 
     exact InvS.set h (Nat.le_refl _) (Nat.le_refl _) (Nat.le_refl _) hm
       ⟨fun t ht => Or.inl ht, Or.inl rfl, fun l hl => Or.inl hl⟩
 
+/-! ## `gam.terms = e` -/
+
+theorem assignTerms_frame (w : World) (i e : Nat) : Frame w (assignTerms w i e) [] [] [] := by
+  unfold assignTerms
+  split
+  · exact Frame.of_append (b := []) (c := []) rfl (by simp) (by simp)
+  · exact Frame.refl ..
+
+theorem assignTerms_models (w : World) (i e j : Nat) (hj : j ≠ i) : (assignTerms w i e).models[j]? = w.models[j]? := by
+  unfold assignTerms
+  split
+  · exact List.getElem?_set_ne (Ne.symm hj)
+  · rfl
+
+theorem assignTerms_exprs (w : World) (i e : Nat) : (assignTerms w i e).exprs = w.exprs := by
+  unfold assignTerms; split <;> rfl
+
+theorem assignTerms_length (w : World) (i e : Nat) : (assignTerms w i e).models.length = w.models.length := by
+  unfold assignTerms; split <;> simp
+
+theorem assignTerms_inv {w : World} (i e : Nat) (h : Inv w) : Inv (assignTerms w i e) := by
+  unfold assignTerms
+  split
+  · next m ex hm hex =>
+    unfold Inv
+    simp only [List.length_append, List.length_map]
+    refine InvS.set h (Nat.le_add_right _ _) (Nat.le_refl _) (Nat.le_refl _) hm
+      ⟨fun t ht => Or.inr ?_, Or.inl rfl, fun l hl => Or.inl hl⟩
+    simpa [mem_freshIds] using ht
+  · exact h
+
 /-! ## `prepare`, `fit` -/
 
 /-- the record of model `i` after `_validate_params(); _validate_data_dep_params(X_d)` -/
